@@ -40,10 +40,21 @@ def proj(obj):
     for it in obj.items:
         if hasattr(it, "items") and type(it).__name__ == "AceGroup":
             out.append(dict(blk=True, seq=lex.limbs(int(it.sequence)), lseq=[0, 0], sig=f"{it.uuid}|{it.name}|{it.note!r}",
-                            items=[_leaf(x) for x in it.items]))
+                            items=proj(it)))       # a block may hold blocks
         else:
             out.append(_leaf(it))
     return out
+
+
+def _block(x, plat):
+    """an AceGroup from a (possibly nested) list of lines; inner blocks can only be put in through append()"""
+    from cisco_acl import AceGroup
+    if all(isinstance(el, str) for el in x):
+        return AceGroup(platform=plat, items=list(x), name=x[0])
+    g = AceGroup(platform=plat, name="nested")
+    for el in x:
+        g.append(_block(el, plat) if isinstance(el, list) else AceGroup(platform=plat, items=[el]).items[0])
+    return g
 
 
 def build(job):
@@ -62,7 +73,7 @@ def build(job):
         return AceGroup(platform=plat, items=list(job["lines"]))
     items = []
     for x in job["lines"]:
-        items.append(AceGroup(platform=plat, items=list(x), name=x[0]) if isinstance(x, list) else x)
+        items.append(_block(x, plat) if isinstance(x, list) else x)
     return Acl(name="A", platform=plat, items=items) if items else Acl(f"ip access-list {'extended ' if plat == 'ios' else ''}A", platform=plat)
 
 
@@ -198,7 +209,15 @@ def random_jobs(rng, n, tid0):
             else:
                 s, d = rng.choice([0, 1, 10, 100, rng.randint(0, MAX)]), rng.choice([0, 1, 10, 100, -5, rng.randint(1, 2 ** 20)])
             calls.append((s, d))
-        jobs.append(dict(tid=t, cls=cls, plat=plat, lines=mk_lines(rng, sizes, rng.choice(["none", "same", "mixed"]), cls, plat),
+        lines_ = mk_lines(rng, sizes, rng.choice(["none", "same", "mixed"]), cls, plat)
+        if cls == "Acl" and rng.random() < 0.15:        # a block inside a block (depth 2 or 3)
+            blocks = [k for k, x in enumerate(lines_) if isinstance(x, list)]
+            if blocks:
+                k = rng.choice(blocks)
+                inner = [ace_line(900 + j, 0) for j in range(rng.randint(1, 2))]
+                # (one level only: the text of a list with blocks three deep is no longer indented as one section)
+                lines_[k] = list(lines_[k]) + [inner] if rng.random() < 0.5 else [inner] + list(lines_[k])
+        jobs.append(dict(tid=t, cls=cls, plat=plat, lines=lines_,
                          calls=calls, origin="random", inner=[rng.randint(0, 3)] if (cls == "AddrGroup" and rng.random() < 0.3) else []))
         t += 1
     return jobs
